@@ -273,7 +273,7 @@ func guardPrecedence(c *Ctx) {
 		return
 	}
 	type spec struct {
-		fn, field string
+		fn, field    string
 		nilOverrides bool // true: a non-nil (even empty) operation list overrides (security); false: only a non-empty one (media types)
 	}
 	for _, sp := range []spec{{"ConsumesFor", "Consumes", false}, {"ProducesFor", "Produces", false}, {"SecurityRequirementsFor", "Security", true}} {
